@@ -125,7 +125,7 @@ CLAIMED = {
              "by the c13-spec search: ~150k rule respellings and ~70k word respellings per quick run compared with the original on the implementation.",
         note="Trusted: Lean kernel, standard axioms; translator (regex over the `match` arms; cross-checked by the search, which spells features through the same table); "
              "harness respelling generators. The defect D13 (`//` and trailing comments rejected after `*`, `&`, the output) was repaired by a fix: commit; two residual "
-             "spellings are known findings (D13b `_ ;; comment`, D13c `- α`).",
+             "spellings: D13c (`- α`: for Latin capitals the space tells an inverted alpha from a capitalised feature name) is a known finding; D13b (`_ ;; comment`) was repaired (fix: 0a92672).",
         technique="Lean 4 table theorems + respelling theorem on the word parser model + respelling search on impl",
         design="§4 C13"),
     "C15": dict(
